@@ -81,3 +81,20 @@ def common_evidence(ctx, index, entries=("backward", "mtl_backward")):
         "an aggregator's output axis inherits the layout of its input's column axis",
         "dict / OrderedDict / zip / comprehensions / append-in-loop preserve the iteration order of what they iterate; set iteration order is arbitrary but fixed for one object",
     ]
+
+
+def overlap_rejection(res) -> bool:
+    """The path ends in a raise decided by 'the intersection of two key collections is non-empty' (however it is spelt:
+    len(a & b) != 0, a.intersection(b) truthiness, not a.isdisjoint(b), ...)."""
+    decs = [e for e in res.events if e["kind"] == "decision"][-6:]
+    for e in decs:
+        k = e.get("key") or ""
+        if "(&:" not in k or e["outcome"] is None:
+            continue
+        if k.startswith("nonempty?") and (bool(e["outcome"]) ^ bool(e.get("key_neg"))):
+            return True
+        if k.startswith("Eq:len[(&:") and k.endswith(")]") and not (bool(e["outcome"]) ^ bool(e.get("key_neg"))):
+            return True  # `len(a & b) == 0` is false
+        if k.startswith("Gt:len[(&:") and k.endswith(")]") and (bool(e["outcome"]) ^ bool(e.get("key_neg"))):
+            return True
+    return False
